@@ -123,7 +123,7 @@ def run(ctx, rep):
     rng = ctx.rng()
     srcs = {}
     jobs = []
-    for i in range(ctx.n(50, 3000)):
+    for i in range(ctx.n(50, 1000)):
         tree = frag.generate(random.Random(f"C14:{ctx.seed}:{i}"))
         tag = f"frag{i}"
         srcs[tag] = frag.to_erg(tree, top=True) + "\n"
